@@ -359,7 +359,10 @@ def c07(run: Run):
         run.add("xz in=%s" % data.hex(), oracle=bound(len(data)), tag="c07:many-streams", release=True)
     data = (b"\x01\x00\x00A" + b"\x02\x00\x00B" * 8000) + b"\x00"
     run.add("lzma2 in=%s" % data.hex(), oracle=bound(len(data)), tag="c07:many-chunks", release=True)
+    many = b"\x01\x00\x00A" + b"\x02\x00\x00B" * 50000 + b"\x00"
+    run.add("lzma2 stk=2097152 in=%s" % many.hex(), oracle=bound(len(many)), tag="c07:many-chunks-2MiB-stack", release=True, cmp=False)
     data = core.build_xz(4, [core.XzBlock(b"\x01\x00\x00A\x00", b"A")] * 3000)
+    run.add("xz stk=2097152 in=%s" % data.hex(), oracle=bound(len(data)), tag="c07:many-blocks-2MiB-stack", release=True, cmp=False)
     run.add("xz in=%s" % data.hex(), oracle=bound(len(data)), tag="c07:many-blocks", release=True)
     # F1/F2 regression witnesses
     f = xzs[0]
@@ -399,7 +402,8 @@ def c08(run: Run):
         garbage_field = rng.pick([0, L + 3, 2**63, U64MAX - 1])
         run.count("eos" if eos else "noeos")
         # --- a size in effect
-        for n in sorted(set([L, L + 1, max(0, L - 1), 0, 2**32, 2**62, 2**63, 2**63 + L, U64MAX - 1, U64MAX])):
+        small_n = [rng.below(L) for _ in range(3)] + [1, 2, 5] if L > 6 else []
+        for n in sorted(set([L, L + 1, max(0, L - 1), 0, 2**32, 2**62, 2**63, 2**63 + L, U64MAX - 1, U64MAX] + [x for x in small_n if x < L])):
             forms = [("hdr", lzma_header(m["lc"], m["lp"], m["pb"], m["dict"], n) + pay, 13),
                      ("hup:%d" % n, lzma_header(m["lc"], m["lp"], m["pb"], m["dict"], rng.pick([garbage_field, L, None])) + pay, 13),
                      ("up:%d" % n, hdr5 + pay, 5)]
@@ -493,6 +497,14 @@ def c08(run: Run):
         for us, data in (("hdr", lzma_file(b)), ("hup:%s" % ("none" if b["eos"] else L2), lzma_file(b)),
                          ("up:%s" % ("none" if b["eos"] else L2), lzma_header(3, 0, 2, b["dict"], "skip") + b["payload"])):
             run.add("lzma us=%s in=%s" % (us, data.hex()), oracle=exp_ok_out(b["out"]), tag="c08:large-window")
+    # one-shot decodes share nothing: a decode that grew a 128 KiB window, then (same process, same thread) a stream
+    # with a 4 KiB dictionary whose output laps its window three times
+    seq = core.script([dict(kind="lzma", lc=3, lp=0, pb=2, dict=1 << 17, prog="X300.%d.200,M300.273*520" % rng.below(99)),
+                       dict(kind="lzma", lc=3, lp=0, pb=2, dict=4096, prog="X200.%d.200,M9.273*45,X30.%d.200" % (rng.below(99), rng.below(99)))])
+    for rep in range(2):
+        run.add("lzma us=hdr in=%s" % lzma_file(seq[0]).hex(), oracle=exp_ok_out(seq[0]["out"]), tag="c08:big-window-then-small:first")
+        run.add("lzma us=%s in=%s" % (rng.pick(["hdr", "hup:%d" % len(seq[1]["out"])]), lzma_file(seq[1]).hex()), oracle=exp_ok_out(seq[1]["out"]),
+                tag="c08:big-window-then-small:second")
     # the raw decoder: a size of 2^64 - 1 given to reset is a size (not "unknown"); allow_incomplete changes nothing for the one-shot decoder
     for m in [x for x in mats if x["eos"]][:sizes(run.tier, 10, 60)]:
         run.add("rawlzma lc=%d lp=%d pb=%d dict=%d us=none ml=none ops=rs:%d;d:%s" % (m["lc"], m["lp"], m["pb"], m["dict"], U64MAX, m["payload"].hex()),
@@ -787,6 +799,35 @@ def c10(run: Run):
                         return f(" ".join(toks[:1] + toks[2:]), meta, peak)
                     run.add("rawlzma lc=%d lp=%d pb=%d dict=%d us=%d ml=%d ops=rs:%s;d:%s" % (
                         m["lc"], m["lp"], m["pb"], d, rng.pick([2**40, 2**63, 5000]), ml, us, m["payload"].hex()), oracle=roracle2, tag="c10:raw-resized")
+    # raw decoder built in two steps (read_header with some options, then LzmaDecoder::new with the limit): the limit
+    # passed to the constructor is the one in effect
+    for m in [x for x in mats if x["dict"] >= 4096 and 40 < len(x["out"]) and len(x["payload"]) < 3000][:sizes(run.tier, 10, 60)]:
+        need = min(m["dict"], len(m["out"]))
+        hdr = lzma_header(m["lc"], m["lp"], m["pb"], m["dict"], None if m["eos"] else len(m["out"]))
+        for hml, ml in (("0", "none"), ("none", "0"), ("0", str(need)), (str(2**40), str(need - 1)), ("7", str(2**40))):
+            expect_ok = ml == "none" or int(ml) >= need
+
+            def two_step(res, meta, peak, out=m["out"], expect_ok=expect_ok, ml=ml, hml=hml):
+                toks = res.split(" ")
+                if len(toks) < 2 or toks[0] != "new:ok":
+                    return "construction failed: %s" % res[:60]
+                if expect_ok and not (toks[1].startswith("ok:") and toks[1].split(":", 2)[2] == out_repr(out)):
+                    return "limit %s given to LzmaDecoder::new (header parsed under limit %s) admits the window but decoding failed: %s" % (ml, hml, toks[1][:60])
+                if not expect_ok and not toks[1].startswith("err:"):
+                    return "limit %s given to LzmaDecoder::new (header parsed under limit %s) is below the needed window but decoding succeeded" % (ml, hml)
+                return None
+            run.add("rawlzma hdr=%s hus=hdr hml=%s ml=%s ops=d:%s" % (hdr.hex(), hml, ml, m["payload"].hex()), oracle=two_step, tag="c10:raw-two-step")
+    # the limit is per decode: after an unlimited decode that grew a large window (same process, same thread), a
+    # decode under a small limit fails as it would have failed first
+    seq = core.script([dict(kind="lzma", lc=3, lp=0, pb=2, dict=1 << 17, prog="X300.%d.200,M300.273*520" % rng.below(99)),
+                       dict(kind="lzma", lc=3, lp=0, pb=2, dict=4096, prog="X200.%d.200,M9.273*20" % rng.below(99))])
+    for ml2 in (0, 100, 4095):
+        run.add("lzma us=hdr in=%s" % lzma_file(seq[0]).hex(), oracle=exp_ok_out(seq[0]["out"]), tag="c10:unlimited-then-limited:first")
+        run.add("lzma us=hdr ml=%d in=%s" % (ml2, lzma_file(seq[1]).hex()), oracle=exp_err(prefix_of=seq[1]["out"]), tag="c10:unlimited-then-limited:second")
+        run.add("stream us=hdr ops=%s" % stream_ops(lzma_file(seq[0]), [len(lzma_file(seq[0]))]), oracle=None, tag="c10:unlimited-then-limited:first")
+        run.add("stream us=hdr ml=%d ops=%s" % (ml2, stream_ops(lzma_file(seq[1]), [50, 70, 4000])),
+                oracle=lambda res, meta, peak: None if stream_verdict(res) == "err" else "streaming under a small limit succeeded right after an unlimited decode grew a large window",
+                tag="c10:unlimited-then-limited:second")
     # an announced size / dictionary costs nothing until data arrives, with or without a limit
     for i in range(sizes(run.tier, 6, 30)):
         m = rng.pick([x for x in mats if x["dict"] >= 4096 and len(x["payload"]) < 3000])
@@ -1047,6 +1088,21 @@ def c12(run: Run):
                     want = "ok:%d:%s" % (used, out_repr(out))
                     return None if res.split(" ")[-1] == want else "after a source fault inside a chunk the reused raw decoder gave %s, the format defines %s" % (res.split(" ")[-1][:60], want[:60])
                 run.add("rawlzma2 ops=%s" % ";".join(["df:" + pay[:cut].hex()] + mid + ["d:" + pay.hex()]), oracle=healthy_again, tag="c12:rawlzma2:reuse-after-source-fault")
+    # the reader uses the library itself in the middle of the outer decode (k-th read call; piecewise readers so
+    # that the outer decoder is inside a chunk): same result as without, never a panic
+    for m in lz2[:sizes(run.tier, 3, 10)]:
+        for k in (1, 2, 3, 5, 8):
+            for rk in ("buf:3", "frag:7:2", "buf:16"):
+                run.add("lzma2 nest=%d rk=%s in=%s" % (k, rk, m["payload"].hex()), oracle=exp_ok_out(m["out"]), tag="c12:nested-use-mid-decode")
+    for f in xzs[:sizes(run.tier, 1, 4)]:
+        for k in (2, 4, 7):
+            run.add("xz nest=%d rk=buf:5 in=%s" % (k, f["data"].hex()), oracle=exp_ok_out(f["out"]), tag="c12:nested-use-mid-decode")
+    # … in particular while the outer decoder is in the middle of an uncompressed chunk's payload
+    body = rng.bytes(40)
+    stored = b"\x01\x00\x27" + body + b"\x02\x00\x04" + body[:5] + b"\x00"
+    for k in range(1, 30):
+        run.add("lzma2 nest=%d rk=frag:%d:2 in=%s" % (k, rng.below(99) + 1, stored.hex()), oracle=exp_ok_out(body + body[:5]), tag="c12:nested-use-in-stored-chunk")
+    run.add("xz nest=9 rk=frag:3:2 in=%s" % core.build_xz(1, [core.XzBlock(stored, body + body[:5])]).hex(), oracle=exp_ok_out(body + body[:5]), tag="c12:nested-use-in-stored-chunk")
     # nothing to deliver is still a success that flushes: the empty LZMA2 stream, empty .lzma streams
     decoder_cases("lzma2", "", b"\x00", b"", True, 2)
     for e in core.script([dict(kind="lzma", lc=3, lp=0, pb=2, dict=4096, prog="E"), dict(kind="lzma", lc=0, lp=2, pb=1, dict=4096, prog="")]):
@@ -1338,8 +1394,16 @@ def c14(run: Run):
             ops.append("d:" + y.hex())
             probes.append((len(ops) - 1, y))
             ops.append("r")
-        hist = run.add("rawlzma2 ops=%s" % ";".join(ops), oracle=lambda res, meta, peak: "panic in history" if "panic" in res else None,
+        hist = run.add("rawlzma2 %sops=%s" % (rng.pick(["", "", "ctor=default "]), ";".join(ops)), oracle=lambda res, meta, peak: "panic in history" if "panic" in res else None,
                        tag="c14:lzma2:history")
+        if i % 5 == 0:
+            # a decoder from Default::default(): its first decode equals a new() decoder's, also for streams whose first
+            # chunk carries no properties byte (accepted leniently, decoded with the initial properties)
+            y0 = rng.pick(pool)
+            a_ = run.add("rawlzma2 ctor=default ops=st;d:%s" % y0.hex(), oracle=None, tag="c14:lzma2:default-ctor")
+            b_ = run.add("rawlzma2 ops=st;d:%s" % y0.hex(), oracle=None, tag="c14:lzma2:fresh", nontrivial=False)
+            groups.append((a_, 1, b_, 2))
+            groups.append((a_, 0, b_, 1))
         for idx, y in probes:
             fresh = run.add("rawlzma2 ops=d:%s" % y.hex(), oracle=None, tag="c14:lzma2:fresh", nontrivial=False)
             groups.append((hist, idx, fresh, 1))
